@@ -227,9 +227,7 @@ theorem tokenize_recase (cfg : ScanCfg) (f : Char → Char) (hf : Recasing cfg.c
     refine ⟨lowerStr_map cfg.cc f hf w, rfl, ?_, ?_⟩
     · unfold Scanner.isSkipped
       dsimp only
-      rw [all_map_eq f hf.ws]
-      congr 1
-      exact singleton_beq f '-' hf.hyphen w
+      rw [all_map_eq f hf.ws, singleton_beq f '-' hf.hyphen w]
     · dsimp only
       rw [all_map_eq f (fun c => by rw [hf.alpha]), trim_map cfg.cc f hf]
       congr 1
